@@ -166,6 +166,36 @@ def len_calls_in(fn, o, depth=2):
     return out
 
 
+def _none_only_when_empty(ctx, fx, fn):
+    """every exit of extract_next_batch is Some(..) or the None that stems from `front()` having found the queue empty
+    (`front()?`, or the None edge of a match / while-let on front()/is_empty()).  Anything else - a computed Option, a None behind an
+    unrelated test - can drop queued blocks: send_response stops at the first None."""
+    emptiness = [c for c in fn.calls(r"VecDeque(<.*>)?::(front|is_empty|len|get|iter)$|Iterator::next$")]
+    cut = set()
+    for sw in fn.discr_switches():
+        node, place = sw[0], sw[1]
+        prod = fn.producer(place)
+        if prod is not None and re.search(r"ops::Try>?::branch$", prod.name):
+            prod = fn.producer(prod.args[0])
+        if prod is not None and re.search(r"VecDeque(<.*>)?::front$", prod.name):
+            for v in ("None", "Break"):
+                for lab in fn.variant_edges(sw, v):
+                    cut.add((node, lab))
+    for sw_node, t, f in [x for c in fn.calls(r"VecDeque(<.*>)?::is_empty$") for x in fn.bool_tests(c.dest[0])]:
+        cut.add((sw_node, t))
+    fr = [c.node for c in fn.calls(r"VecDeque(<.*>)?::(front|is_empty)$")]
+    r_nocut = fn.reach([fn.entry], cut=cut)
+    bad = []
+    for n, sh in fn.exits():
+        if all(x.startswith("Some") for x in sh):
+            continue
+        if all(x.startswith("None") or x == "residual" for x in sh) and fr and n not in r_nocut:
+            continue
+        bad.append((fn.site(n), sorted(sh)))
+    ctx.ob("R20.3", "extract_next_batch/None-only-when-queue-empty", not bad, site=fn.site(fn.entry), cfg=fx.cfg,
+           detail="exits that are neither Some(..) nor the None of an empty queue: %s" % bad)
+
+
 def r20_3(ctx, fx):
     mm = fx.const(BS + "config::MAX_MESSAGE_SIZE")
     mb = fx.const(BS + "config::MAX_BATCH_SIZE")
@@ -195,6 +225,7 @@ def r20_3(ctx, fx):
     fn = ctx.fn(fx, BS + "extract_next_batch", "R20.3")
     if fn is None:
         return
+    _none_only_when_empty(ctx, fx, fn)
     dr = fn.calls(r"VecDeque(<.*>)?::drain$")
     ctx.anchor("R20.3", "extract_next_batch: drain", len(dr), 1, cfg=fx.cfg)
     if not dr:
@@ -249,11 +280,6 @@ def r20_3(ctx, fx):
     for p in pops:
         ok, why = guards.guarded(fn, p.node, is_single, is_b, ">")
         ctx.ob("R20.3", "extract_next_batch/discard-only-if-block-alone-exceeds-max", ok, site=fn.site(p.node), cfg=fx.cfg, detail=why)
-    # None only when the queue is empty: the only None/residual exit stems from front()?
-    fr = fn.calls(r"VecDeque(<.*>)?::front$")
-    nones = [n for n, sh in fn.exits() if any(x.startswith("None") or x == "residual" for x in sh)]
-    ok = bool(fr) and all(n not in fn.reach([fn.entry], avoid=[c.node for c in fr]) for n in nones) and all("residual" in dict(fn.exits())[n] for n in nones)
-    ctx.ob("R20.3", "extract_next_batch/None-only-when-queue-empty", ok, site=fn.site(fn.entry), cfg=fx.cfg, detail="None-like exits: %s" % [fn.site(n) for n in nones])
 
 
 def run(ctx):
